@@ -178,6 +178,14 @@ def real_workflow(mods, job):
     return ev
 
 
+def real_workflow_pair(mods, job):
+    """Two workflow instances one after the other IN ONE PROCESS: what an earlier design session selected must not leak into a
+    later one (its defaults are the library's defaults, whatever grids were searched before).  -> [trace, trace]"""
+    first = real_workflow(mods, job)
+    second = real_workflow(mods, {"seed": job["seed"] + 17, "fits": job["then"], "outliers": job.get("outliers")})
+    return [first, second]
+
+
 def run(ctx):
     quick = ctx.quick
     r = tlc.run("MC_Workflow", workers=ctx.cores, timeout=600, coverage=True)
@@ -228,14 +236,21 @@ def run(ctx):
             for g in grids:
                 jobs.append({"seed": ctx.seed + k, "fits": [(k % 3, g), (n, g)], "outliers": k % 2 == 1})
                 k += 1
-    res = workers.run_tasks([("props.c18", "real_workflow", (j,), 1800) for j in jobs], procs=ctx.cores)
+    # a second design session in the same process whose grid leaves out what the first one searched over
+    jobs.append({"seed": ctx.seed + 40, "fits": [(5, {"innovation_filtering": [2.0, 4.0]})], "then": [(6, {"max_dt_sec": [0.05, 0.2]})]})
+    if not quick:
+        jobs.append({"seed": ctx.seed + 41, "fits": [(6, {"max_dt_sec": [0.3], "common_subexpression_elimination": [False]})], "then": [(5, {"innovation_filtering": [None, 3.0]})]})
+    res = workers.run_tasks([("props.c18", "real_workflow_pair" if "then" in j else "real_workflow", (j,), 1800) for j in jobs], procs=ctx.cores)
     traces = []
     for j, (status, ev) in zip(jobs, res):
         if status != "ok":
             ctx.dropped += 1
             ctx.notes.append(str(ev)[-300:])
             continue
-        traces.append(ev)
+        if "then" in j:
+            traces.extend(ev)
+        else:
+            traces.append(ev)
     verdicts, tres = trace.validate("Workflow_Trace", traces)
     nfit = 0
     for ev, v in zip(traces, verdicts):
